@@ -251,6 +251,41 @@ def extract_imain(repo):
     else:
         fail("unexpected assumption literal: " + txt)
 
+    # the loop body must consist of exactly the statement shapes the model transcribes — anything else
+    # (an extra guard, a `continue`, an early `break`, another assignment) is not silently ignored
+    for st in loop.body:
+        txt = ast.unparse(st)
+        if isinstance(st, ast.Assign) and txt in ("parts = []", "assumptions = []"):
+            continue
+        if isinstance(st, ast.For):
+            tgt, it = ast.unparse(st.target), ast.unparse(st.iter)
+            if (tgt, it) == ("(root_name, part_name, rng)", "program_parts"):
+                inner_ok = (len(st.body) == 1 and isinstance(st.body[0], ast.For) and not st.orelse
+                            and ast.unparse(st.body[0].target) == "i" and ast.unparse(st.body[0].iter) == "rng"
+                            and st.body[0].body == [part_if] and not st.body[0].orelse)
+                if not inner_ok:
+                    fail("imain: unexpected statements in the part-selection loop", st)
+                continue
+            if (tgt, it) == ("(name, arity, positive)", "future_sigs"):
+                inner_ok = (len(st.body) == 1 and isinstance(st.body[0], ast.For) and not st.orelse
+                            and ast.unparse(st.body[0].target) == "atom"
+                            and st.body[0].body == [asm_if] and not st.body[0].orelse)
+                if not inner_ok:
+                    fail("imain: unexpected statements in the assumption loop", st)
+                continue
+            fail("imain: unexpected for loop: " + txt.split("\n")[0], st)
+        if isinstance(st, ast.If):
+            if ast.unparse(st.test) != "step > 0" or st.orelse or not all(isinstance(x, ast.Expr) and isinstance(x.value, ast.Call) for x in st.body):
+                fail("imain: unexpected conditional in the loop body: " + txt.split("\n")[0], st)
+            continue
+        if isinstance(st, ast.Expr) and isinstance(st.value, ast.Call):
+            continue
+        if st is loop.body[-1] and isinstance(st, ast.Assign):
+            continue
+        fail("imain: unexpected statement in the loop body: " + txt.split("\n")[0], st)
+    if loop.orelse:
+        fail("imain: while-else")
+
     # step script: ordered calls in the loop body, with the `if step > 0` guard
     script = []
     for st in loop.body:
